@@ -48,6 +48,18 @@ def _with_prelude(draw, tier):
         # scalars and falsy elements: a flattened element is a value like any other
         from . import c16
         return {"family": "flatten", "flat": draw(c16.strategy(tier))}
+    if chance(draw, 1, 8):
+        # ONE expression object f (x.o, x.a, x.tags[0], x.s) stands in condition position and is passed on as a VALUE to a
+        # predicate, inside one disjunction: or_(f, HasType(f, int)), or_(p_val_eq(f, 0), f).  Only an occurrence in
+        # condition position is read as a boolean.  (No truthy twin here: relabelling would change what the condition
+        # occurrence means; the Python reference decides.)
+        import dataclasses
+        cfg = dataclasses.replace(_cfg(tier), exclude_leaves=frozenset({"substr", "starts"}), force_template="truth_or_value_pred",
+                                  nvars=(1, 2), kw_vars=(0, 1))
+        case = draw(query_case(cfg))
+        case["share_terms"] = True
+        case["no_twin"] = True
+        return case
     case = draw(query_case(_cfg(tier)))
     if chance(draw, 1, 3):
         # the value-position expressions of the query also occur in an EARLIER query over the same variables, as the SAME
@@ -198,6 +210,8 @@ def check(case) -> Outcome:
     inc = row_consistency(case, got)
     if inc:
         return fail("inconsistent_row", inc, nontrivial=nontrivial, classes=classes, features=feats)
+    if case.get("no_twin"):
+        return Outcome(True, nontrivial=nontrivial, classes=classes + ["value_also_in_condition_position"], features=feats)
     # ---- truthy twin
     tcase = twin(case)
     tobjs = build_entities(tcase["ents"])
